@@ -407,3 +407,15 @@ Proof.
   intros x Hx. apply H. right. exact Hx.
 Qed.
 End RunnerProofs.
+
+(* ====================================================================== reading of `is_mean` over the integers *)
+Lemma sum_left_Z col : sum_left Z Z.add 0%Z col = fold_right Z.add 0%Z col.
+Proof.
+  destruct col as [|x r]; simpl; auto.
+  revert x. induction r as [|y r IH]; intros x; simpl; [lia|]. rewrite IH. simpl. lia.
+Qed.
+
+Lemma is_mean_Z arrs count m :
+  is_mean Z Z.add Z.div 0%Z arrs count m ->
+  forall i, (i < length m)%nat -> nth i m 0%Z = (fold_right Z.add 0 (column Z i 0 arrs) / count)%Z.
+Proof. intros [_ H] i Hi. rewrite H by exact Hi. now rewrite sum_left_Z. Qed.
